@@ -109,6 +109,18 @@ def run(repo: Repo, chk: Check, thorough: bool = False) -> None:
         chk.ob('R07.2', f'{MV}._handleReExport :: not moved when the origin exports it itself', g2,
                'dominated by `origin.all is None or origin_name not in origin.all`' if g2 else
                'an object the defining module lists in its own __all__ would be moved away from it', repo.loc(hr.mod, c))
+        # the object to move is looked up in the defining module under the name it has THERE (the exported name only names the destination)
+        lookups = [x for x in calls_in(hr) if isinstance(x.func, ast.Attribute) and x.args and
+                   ((x.func.attr == 'get' and norm(x.func.value) == f'{ps[4]}.contents') or
+                    (x.func.attr in ('resolveName', 'expandName') and norm(x.func.value) == ps[4]))] + \
+                  [x for x in hr.walk() if isinstance(x, ast.Subscript) and norm(x.value) == f'{ps[4]}.contents']
+        if not lookups:
+            chk.error('R07.2: the lookup of the re-exported object in the origin module was not found in _handleReExport')
+        badl = [x for x in lookups if norm(x.args[0] if isinstance(x, ast.Call) else x.slice) != ps[2]]
+        chk.ob('R07.2', f'{MV}._handleReExport :: the object is looked up under its name in the defining module', not badl,
+               f'{len(lookups)} lookup(s) in {ps[4]} use {ps[2]}' if not badl else
+               f'`{norm(badl[0])[:60]}` looks in the defining module under another name than {ps[2]}: for `from m import A as B` with B exported, '
+               'a different object of m that happens to be called B is moved and A stays where it was', repo.loc(hr.mod, badl[0] if badl else c))
         a = c.args
         curv = {t.id for n in hr.walk() if isinstance(n, ast.Assign) and norm(n.value) == 'self.builder.current' for t in n.targets if isinstance(t, ast.Name)}
         ok = len(a) == 2 and norm(a[1]) == ps[3] and (norm(a[0]) in curv or norm(a[0]) == 'self.builder.current')
@@ -139,7 +151,31 @@ def run(repo: Repo, chk: Check, thorough: bool = False) -> None:
             chk.ob('R07.2', f'{q} :: a moved name gets no import alias', skip and bool(al),
                    'continue after a successful re-export (the object itself is now a member)' if skip else
                    'after the move the name is also recorded as an alias to the old location', repo.loc(f.mod, c))
-    chk.require('R07.2', 6)
+    # star import: the names come from the origin module's members AND from its own imports / the aliases reparent() left there, so the
+    # alias recorded in the importing module must be the origin module's expansion of the name, not `<origin>.<name>` glued together
+    ia = repo.func(f'{MV}._importAll')
+    modv = {t.id for n in ia.walk() if isinstance(n, ast.Assign) and isinstance(n.value, ast.Call) and call_name(n.value) == 'getProcessedModule'
+            for t in n.targets if isinstance(t, ast.Name)}
+    bound = {t.id: n.value.attr for n in ia.walk() if isinstance(n, ast.Assign) and isinstance(n.value, ast.Attribute) and
+             isinstance(n.value.value, ast.Name) and n.value.value.id in modv for t in n.targets if isinstance(t, ast.Name)}
+    stores = [n for n in ia.walk() if isinstance(n, ast.Assign) and any(isinstance(t, ast.Subscript) and '_localNameToFullName' in norm(t.value) for t in n.targets)]
+    if not modv or not stores:
+        raise AnalysisError('R07.2: _importAll no longer records the star-imported names in _localNameToFullName_map / no getProcessedModule result')
+    EXPANDERS = ('expandName', '_localNameToFullName')
+    for st in stores:
+        v = st.value
+        via = None
+        if isinstance(v, ast.Call):
+            if isinstance(v.func, ast.Attribute) and isinstance(v.func.value, ast.Name) and v.func.value.id in modv:
+                via = v.func.attr
+            elif isinstance(v.func, ast.Name) and v.func.id in bound:
+                via = bound[v.func.id]
+        ok = via in EXPANDERS
+        chk.ob('R07.2', f'{MV}._importAll :: star-imported names are expanded by the module they come from', ok,
+               f'alias = <origin module>.{via}(name)' if ok else
+               f'`{norm(st)[:70]}`: a name the origin module itself imported, or one that was moved away from it by a re-export, is recorded under '
+               '`<origin>.<name>`, where nothing is documented - bases, annotations and links through the star import stop resolving', repo.loc(ia.mod, st))
+    chk.require('R07.2', 8)
 
     # ------------------------------------------------------------------ R07.3
     fo = repo.func('pydoctor.model.System.find_object')
@@ -159,4 +195,22 @@ def run(repo: Repo, chk: Check, thorough: bool = False) -> None:
     lk = repo.func('pydoctor.linker._EpydocLinker._resolve_identifier_xref')
     ok = any(call_name(c) == 'find_object' for c in calls_in(lk)) or any(call_name(c) in ('resolveName', 'expandName') for c in calls_in(lk))
     chk.ob('R07.3', 'linker._resolve_identifier_xref :: cross-references resolve through the alias machinery', ok, 'resolveName / find_object', lk.loc)
-    chk.require('R07.3', 5)
+    # a consumer that imported the object by name from the defining module holds `old.module.Name`; expandName must lead from there to the
+    # moved object: either the lookup re-resolves a name nothing is documented under, or the move rewrites the consumers' import tables
+    en = repo.func(f'{DOC}.expandName')
+    cfe = CFG(en)
+    look = [c for c in calls_in(en) if call_name(c) == 'objForFullName']
+    if not look:
+        raise AnalysisError('R07.3: expandName no longer looks the expanded name up with objForFullName')
+    RERESOLVE = ('find_object', 'expandName', '_expandName', 'resolveName', '_resolveAlias')
+    again = [c for c in calls_in(en) if call_name(c) in RERESOLVE and cfe.stmt_of(c) is not cfe.stmt_of(look[0]) and
+             id(cfe.stmt_of(c)) in cfe.reachable(cfe.stmt_of(look[0]), no_exc=True)]
+    rewrites = [n for n in rp.walk() if isinstance(n, (ast.For, ast.While)) and
+                any(isinstance(x, ast.Subscript) and '_localNameToFullName_map' in norm(x.value) and isinstance(getattr(x, 'ctx', None), ast.Store) for x in ast.walk(n))]
+    ok = bool(again) or bool(rewrites)
+    chk.ob('R07.3', f'{DOC}.expandName :: an import of the old location of a moved object is re-resolved', ok,
+           (f'`{norm(again[0])[:50]}` after the failed lookup' if again else 'reparent rewrites the import tables of the consumers') if ok else
+           'a name bound by `from defining_module import Name` expands to `defining_module.Name`; when nothing is documented under it the loop just '
+           'breaks - the alias reparent() left in the defining module is only consulted for dotted references (`defining_module.Name` written out), '
+           'so a base class / annotation / cross-reference through the imported bare name does not reach the moved object', en.loc)
+    chk.require('R07.3', 6)
